@@ -198,6 +198,13 @@ static void gen_variant(char *spec, size_t cap, long size)
 		if (t < size)
 			size = t;
 	}
+	if (vrng_chance(15) && size >= 8) {
+		/* an offset/length word of the header made unreachable: top byte of an aligned 32-bit word */
+		long win = size < 128 ? size : 128;
+		long off = (long)(vrng_below((uint32_t)(win / 4))) * 4;
+		l += snprintf(spec + l, cap - l, "z:%ld.%d", off + (vrng_chance(50) ? 0 : 3), vrng_chance(50) ? 127 : 255);
+		return;
+	}
 	n = vrng_chance(60) ? 1 : vrng_range(2, 5);
 	for (i = 0; i < n; i++) {
 		long off;
